@@ -251,5 +251,8 @@ def run_configs(run: Run, modname, cfgs, cosim_cycles=16, procs=None, crash_is_v
         if out["results"]:
             run.sample({"config": out["cfg"], "obligations": [r["name"].split("@")[0] for r in out["results"]][:12],
                         "info": out.get("info")})
-    run.extra["configurations_refused_by_constructor"] = refused
+    run.extra["configurations_refused_by_constructor"] = run.extra.get("configurations_refused_by_constructor", 0) + refused
+    if refused:
+        run.extra.setdefault("refused_examples", [])
+        run.extra["refused_examples"] += [{"config": o["cfg"], "message": o["refused"][:200]} for o in outs if "refused" in o][:3]
     return outs
